@@ -61,7 +61,10 @@ class Standardiser(PoolDecorator):
         by_supply = _clamp(supply - self.backlog, value, supply + self.surplus)
         by_limits = _clamp(self.minimum, by_supply, self.maximum)
         # preserve the type of ``value`` unless converting moves it off a fractional limit
-        typed = type(value)(by_limits)
+        try:
+            typed = type(value)(by_limits)
+        except OverflowError:  # an infinite limit, e.g. of an unbounded ``supply``, has no int form
+            return by_limits
         return typed if typed == by_limits else by_limits
 
     def __init__(
